@@ -591,7 +591,7 @@ type contactEnvelope struct {
 	LastSeenOn *time.Time               `json:"last_seen_on,omitempty"`
 	URNs       []urns.URN               `json:"urns,omitempty"      validate:"dive,urn"`
 	Groups     []*assets.GroupReference `json:"groups,omitempty"    validate:"dive,required"`
-	Fields     map[string]*Value        `json:"fields,omitempty"`
+	Fields     map[string]*Value        `json:"fields,omitempty"    validate:"dive"`
 	Ticket     json.RawMessage          `json:"ticket,omitempty"`
 }
 
